@@ -21,8 +21,8 @@ type T struct {
 
 const starLeaf = 1000000 // leaf id of the `*` query (SV.Parser.tokSeqQL.star)
 
-func leaf(n int) *T          { return &T{op: 'a', n: n} }
-func not(c *T) *T            { return &T{op: '!', l: c} }
+func leaf(n int) *T           { return &T{op: 'a', n: n} }
+func not(c *T) *T             { return &T{op: '!', l: c} }
 func bin(op byte, l, r *T) *T { return &T{op: op, l: l, r: r} }
 
 func (t *T) prefix(sb *strings.Builder) {
